@@ -53,6 +53,8 @@ def c01(ck):
     ck.exhaustive = True
     ck.extra["bounds"] = consts
     random_programs(ck, 2000 if ck.quick else 40000, 8, seed_offset=101)
+    machine_refines_def(ck, "c01", 3 if ck.quick else 4)
+    evaluator_traces(ck, "c01", 2 if ck.quick else 3)
     if not ck.quick:
         oracle_stepfiles(ck)
 
@@ -138,6 +140,8 @@ def c03(ck):
     ck.exhaustive = True
     ck.extra["bounds"] = consts
     random_programs(ck, 2000 if ck.quick else 40000, 8, seed_offset=303)
+    machine_refines_def(ck, "c03", 2 if ck.quick else 3)
+    evaluator_traces(ck, "c03", 2)
 
 
 @check("C12")
@@ -155,6 +159,9 @@ def c12(ck):
         ck.extra.setdefault("bounds", {})[mode] = consts
     ck.exhaustive = True
     random_programs(ck, 2000 if ck.quick else 40000, 8, seed_offset=1212)
+    machine_refines_def(ck, "c12", 2 if ck.quick else 3)
+    machine_refines_def(ck, "c12qq", 3 if ck.quick else 4)
+    evaluator_traces(ck, "c12", 2)
 
 
 def dedupe_by_src(cases, merge_key=None):
@@ -390,6 +397,10 @@ def c08(ck):
     ck.replay(big, timeout=3000)
     ck.exhaustive = True
     ck.extra["bounds"] = consts
+    # the implementation-shaped evaluator (Eval.tla: Depth = Len(kont)+1 = live EVAL activations) bound to the code:
+    # every real loop iteration (form, number of EVAL activations) must be the machine's
+    evaluator_traces(ck, "c01", 2 if ck.quick else 3)
+    evaluator_traces(ck, "c12", 2)
 
 
 @check("C18")
@@ -770,3 +781,59 @@ def oracle_stepfiles(ck):
     ck.extra["oracle_vs_step_files"] = {"pairs": len(ps), "agree": ok, "outside_fragment": skip, "disagree": len(dis)}
     if dis:
         raise InfraError("the definition layer disagrees with the step files (fix the specification):\n" + "\n".join(dis[:20]))
+
+
+def evaluator_traces(ck, which, size):
+    """Trace validation of the evaluator: real loop-top events vs the small-step machine Eval.tla."""
+    import os, json
+    r = ck.tlc("GenC18", cfg(constants={"Which": '"%s"' % which, "MaxSize": size}), timeout=1500)
+    ck.tlc_ok(r, "GenC18")
+    cases = [dict(c, kind="looptops", id="lt:" + c["id"]) for c in r.cases if c["allow"]["k"] not in ("div", "unspec")]
+    vs = ck.harness(["replay", "-workers", "1"] + ck.write_ctx(r.ctx), cases, timeout=3000)
+    byid = {c["id"]: c for c in cases}
+    rows = []
+    for v in vs:
+        if v.get("verdict") != "ok":
+            ck.report(v.get("key") or v["verdict"], v.get("note") or "", {"case": byid[v["id"]], "verdict": v})
+            continue
+        c = byid[v["id"]]
+        rows.append({"sz": c["sz"], "idx": c["idx"], "tops": v["obs"]["tops"]})
+    trace = os.path.join(ck.scratch, "tops-%s.ndjson" % which)
+    write_ndjson(trace, rows)
+    t = ck.tlc("TraceEval", cfg(constants={"Which": '"%s"' % which}), env={"VERIF_TRACE": trace}, want_cases=False,
+               timeout=3000, heap="12g")
+    if t.exit != 0:
+        raise InfraError("TraceEval failed: exit %s\n%s" % (t.exit, tail(t.stdout_path)))
+    rej, abst = [], 0
+    for line in open(t.stdout_path, errors="replace"):
+        if line.startswith('"REJECT '):
+            rej.append(json.loads(line.strip())[7:])
+        elif line.startswith('"ABSTAIN '):
+            abst += 1
+    ck.traces_validated += len(rows) - abst
+    ck.extra.setdefault("evaluator_traces", {})[which] = {"programs": len(rows), "loop_iterations": sum(len(r_["tops"]) for r_ in rows),
+                                                          "abstained": abst, "rejected": len(rej)}
+    for line in rej[:20]:
+        idx, _, why = line.partition(" ")
+        ck.report("looptops:differs-from-machine", "the real evaluation loop does not follow the small-step machine: " + why[:400],
+                  {"case": {"kind": "looptops-trace", "record": rows[int(idx) - 1]["sz"], "why": why}})
+    # binding self-test: drop one recorded iteration
+    if rows:
+        bad = [dict(r_) for r_ in rows[:50]]
+        for b in bad:
+            if len(b["tops"]) > 2:
+                b["tops"] = b["tops"][:1] + b["tops"][2:]
+        path = trace + ".corrupt"
+        write_ndjson(path, bad)
+        t2 = ck.tlc("TraceEval", cfg(constants={"Which": '"%s"' % which}), env={"VERIF_TRACE": path}, want_cases=False, timeout=900)
+        if '"REJECT ' not in open(t2.stdout_path, errors="replace").read():
+            raise InfraError("TraceEval accepted a trace with a missing loop iteration: it does not bind")
+
+
+def machine_refines_def(ck, which, size):
+    """Model-level theorem checked by TLC: the small-step machine Eval.tla ends like the definition Def.tla
+    (same outcome, same effect log) for EVERY program of the grammar up to the size bound, and never gets stuck."""
+    r = ck.tlc("MCEval", cfg(constants={"Which": '"%s"' % which, "MaxSize": size}), timeout=1800, want_cases=False)
+    if r.exit != 0:
+        raise InfraError("Eval.tla does not refine Def.tla (%s, size %d): exit %s\n%s" % (which, size, r.exit, tail(r.stdout_path)))
+    ck.extra.setdefault("machine_refines_definition", {})[which] = {"max_size": size, "programs": r.distinct // 2}
